@@ -5,6 +5,7 @@ components a function reads and writes — are validated dynamically by the corr
 import StarsimModel.Model.Footprint
 import StarsimModel.Model.Rng
 import StarsimModel.Generated.SeedFacts
+import StarsimModel.Generated.GlobalReads
 
 namespace StarsimModel.C02
 open StarsimModel.Footprint
@@ -111,6 +112,11 @@ theorem C02_start_step_jumps_own :
     Gen.Seed.ownershipExpr = "{key: dist for key, dist in self.dists.items() if id(dist.module) == id(module)}" ∧
     Gen.Seed.searchExpr = "sc.search(obj, type=Dist, skip=skip, flatten=True)" ∧
     Gen.Seed.distLoop = ["self.dists.items() -> (trace, dist)"] := by decide
+
+/-- Components cannot share a distribution (or any other mutable object) by accident: no class-level mutable
+    attribute and no mutable default argument exists in the simulation code (regenerated table).  A shared default
+    `Dist` would be one object — one stream — in every component built with the default. -/
+theorem C02_no_shared_defaults : Gen.sharedMutables = [] := by decide
 
 /-! ### Non-vacuity -/
 
